@@ -515,7 +515,7 @@ pub fn run(opts: &Opts) -> i32 {
           explore(&mut lean, name, layout, a, max_held, cap, &mut stats, &mut findings);
         }
         *stats.by_source.entry(class).or_insert(0) += stats.transitions - before;
-        if findings.len() > 40 { break; }
+        if findings.len() > 150 { break; }
       }
       stats.lean_requests = lean.sent;
       lean.finish();
@@ -546,8 +546,20 @@ pub fn run(opts: &Opts) -> i32 {
   let guard = total.lock().unwrap();
   let (stats, findings) = (&guard.0, &guard.1);
   let mut lines = Vec::new();
-  for (i, f) in findings.iter().enumerate() {
-    if i >= 40 { break; }
+  // what is written out: up to 4 findings of every distinct tag set (so that a flood of one kind, or of the divergences
+  // a change causes on every layout, cannot push the one finding of another property out of the list), property
+  // findings first, then up to 12 divergences
+  let mut chosen: Vec<&Finding> = Vec::new();
+  {
+    let mut per_tag: HashMap<String, usize> = HashMap::new();
+    for f in findings.iter().filter(|f| f.kind != "divergence") {
+      let c = per_tag.entry(format!("{}:{}", f.kind, f.properties.join(","))).or_insert(0);
+      if *c < 4 { *c += 1; chosen.push(f); }
+    }
+    chosen.extend(findings.iter().filter(|f| f.kind == "divergence").take(12));
+  }
+  for (i, f) in chosen.iter().enumerate() {
+    if i >= 120 { break; }
     let path = format!("{}/finding_{}_{}.json", out_dir, seed, i);
     std::fs::write(&path, serde_json::to_string_pretty(&finding_to_json(f)).unwrap()).unwrap();
     match f.kind.as_str() {
